@@ -77,4 +77,15 @@ PROPS["C11"] = {
     "assumptions": [],
 }
 
+PROPS["C15"] = {
+    "modules": ["Foundation.Proofs.C15"],
+    "facts": True,
+    "level_text": "Machine-checked: if every mutating stub method is overridden by a no-op, then for every query body (any list of stub calls, any arguments) running it through queryStub leaves writes, event, validation parameters and private data unchanged (induction on the body); with the overrides re-extracted from core/query_stub.go each run this is instantiated by decide (query_readonly); on both routes the body of a query method receives the read-only stub; per-run obligations: no unknown mutator in the shim interface, wrap sites, wrap before authentication. Tied to the code by scripted query bodies trying every mutating call on both routes and by every library Query* function, observing the simulated transaction's write-set/event/validation/private data.",
+    "level_note": "Trusted: Lean kernel + 3 axioms; the fact extractor (an override counts as inert only if its body is a bare `return nil`); InvokeChaincode from a query body is outside the statement; simulated peer records effects faithfully.",
+    "trusted_base": ["core/query_stub.go overrides and shim interface method set re-extracted per run", "Dispatch model for the two routes (C11)"],
+    "hypotheses": [],
+    "not_modelled": ["InvokeChaincode issued by a query body (excluded by the property's own list)"],
+    "assumptions": [],
+}
+
 NOT_APPLICABLE = {}
